@@ -566,6 +566,9 @@ func aclPairSpace(model, name string, lines []string, nLines, maxLen int, allowE
 	return sp
 }
 
+// routeECMPTargets: targets may hold several routes to one destination.
+var routeECMPTargets = true
+
 // route alphabets
 var asaRoutes = []string{
 	"route outside 0.0.0.0 0.0.0.0 10.0.0.1",
@@ -630,6 +633,11 @@ func routePairSpace(model string) *space {
 	devSets := sets
 	if model == "IOS" {
 		devSets = all // an IOS device may hold several routes to one destination
+	}
+	if routeECMPTargets {
+		// targets with two routes to one destination (load sharing; on ASA
+		// through a raw file, same interface)
+		sets, devSets = all, all
 	}
 	nb := int64(len(sets))
 	sp := &space{name: "rt", model: model, n: int64(len(devSets)) * nb}
